@@ -561,6 +561,14 @@ pub fn judge(m: &WdlModel) -> Result<Observed, Fail> {
     if b2 != b1 {
         vfail!("wdl-second-write-differs", "write(parse(write(x))) != write(x): {}", first_diff(&b1, &b2));
     }
+    // whatever version the auto-detecting parser settles on (several versions share one layout), it
+    // must be one that can hold everything it parsed: writing the parsed file with the parser of its
+    // own `version` and reading that back must still give the original content
+    if let Some(dv) = VERSIONS.iter().position(|x| *x == pa.version) {
+        let b4 = write_wdl(&pa, dv as u8, "auto-detected version")?;
+        let p4 = parse_wdl(&b4, &WdlParser::with_version(pa.version), "file rewritten with its auto-detected version")?;
+        cmp_content(&p4, m, &tiles, "wdl-autodetected-version-cannot-hold-the-content", "parse(write(auto-detected parse, its own version))")?;
+    }
     // observation only (not part of the statement): rewrite with the re-detected version
     let mut obs = Observed { autodetect_rewrite_differs: None };
     if let Ok(b3) = write_wdl(&pa, v, "auto") {
